@@ -16,8 +16,10 @@ import HydroVerif.Num
 namespace HydroVerif.C15
 
 inductive Err
-  | emptyPolygon   -- `polygon[:, 0].min()` of a 0-row array raises
-  | insideLength   -- caller-supplied answer vector of the wrong length
+  | insideDtype    -- caller-supplied answer vector not of dtype int32 (gutils.py: ValueError, tested first)
+  | insideLength   -- caller-supplied answer vector of the wrong length (gutils.py: ValueError, tested second)
+  | shapeAssert    -- `points.shape[1] == 2` / `polygon.shape[1] == 2` (c_hydrodiy_gis.pyx: bare AssertionError)
+  | emptyPolygon   -- `polygon[:, 0].min()` of a 0-row array raises (ValueError, last)
   deriving DecidableEq, Repr
 
 /-! ### the closed edge cycle and parity (used by the specification) -/
@@ -115,6 +117,17 @@ def pointsInsidePolygon (atol : α) (pts : List (α × α)) (poly : List (α × 
     | [] => .error .emptyPolygon
     | v0 :: t => .ok (cInside atol poly (extentX v0 t) (extentY v0 t) pts (List.replicate pts.length false))
 
+/-- the whole call as the Python caller makes it: `ptsWidth` / `polyWidth` are `points.shape[1]` /
+`polygon.shape[1]` (the pairs hold the first two columns), `inside` is `(dtype is int32, length)` of the answer
+vector when one is passed. Order of the guards as in the code: dtype, length (gutils.py), the two shape asserts
+(pyx), empty polygon (numpy `min`). 1-d / 3-d arrays are refused by Cython's buffer typing and are not modelled. -/
+def pointsInsidePolygonCall (atol : α) (ptsWidth : Nat) (pts : List (α × α)) (polyWidth : Nat)
+    (poly : List (α × α)) (inside : Option (Bool × Nat)) : Except Err (List Bool) :=
+  if (match inside with | some (isInt32, _) => !isInt32 | none => false) then .error .insideDtype
+  else if (match inside with | some (_, n) => n != pts.length | none => false) then .error .insideLength
+  else if ptsWidth != 2 || polyWidth != 2 then .error .shapeAssert
+  else pointsInsidePolygon atol pts poly (inside.map (·.2))
+
 /-! ### `Grid.cells_inside_polygon` -/
 
 /-- `getcoord` (c_grid.c:27-42): centre of cell `idx`, cells numbered row by row from the top-left corner -/
@@ -132,6 +145,16 @@ def cellsInside [NatCast α] (nrows ncols : Nat) (xll yll csz : α) (atolDefault
   match pointsInsidePolygon atolDefault (cells.map (cellCentre nrows ncols xll yll csz)) poly none with
   | .error e => .error e
   | .ok ins => .ok (((cells.zip ins).filter (·.2)).map (·.1))
+
+/-- the returned table: columns `x = points[inside, 0]`, `y = points[inside, 1]`, `cell = ncells[inside]`
+(boolean-mask selection of the rows of the centre array and of the cell numbers) -/
+def cellsInsideTable [NatCast α] (nrows ncols : Nat) (xll yll csz : α) (atolDefault : α) (poly : List (α × α)) :
+    Except Err (List (α × α × Nat)) :=
+  let cells := List.range (nrows * ncols)
+  let pts := cells.map (cellCentre nrows ncols xll yll csz)
+  match pointsInsidePolygon atolDefault pts poly none with
+  | .error e => .error e
+  | .ok ins => .ok ((((pts.zip cells).zip ins).filter (·.2)).map fun r => (r.1.1.1, r.1.1.2, r.1.2))
 
 /-! ### the even-odd rule, free of tolerances, pre-tests and boxes (specification) -/
 
